@@ -24,6 +24,8 @@ import (
 
 	"github.com/janelia-flyem/dvid/datastore"
 	"github.com/janelia-flyem/dvid/datatype/common/proto"
+	"github.com/janelia-flyem/dvid/dvid"
+	"github.com/janelia-flyem/dvid/storage"
 	"verif/harness/dv"
 	"verif/harness/lib"
 )
@@ -45,6 +47,33 @@ type OpSpec struct {
 	Items   []KV     `json:"items,omitempty"`
 	Meta    int      `json:"meta,omitempty"`
 	Val     string   `json:"val,omitempty"`
+	// the second branch and the "inmemory" configuration
+	Branch    bool   `json:"branch,omitempty"`    // the request goes to the head of branch "b"
+	From      int    `json:"from,omitempty"`      // kind "branch": master version (counted from the root) to branch from
+	CfgBranch bool   `json:"cfgbranch,omitempty"` // kind "config": ":b"
+	CfgStatic []VRef `json:"cfgstatic,omitempty"` // kind "config": version uuids
+}
+
+// VRef names a version: the N-th of master counted from the root, or the N-th of branch "b"
+type VRef struct {
+	B bool `json:"b,omitempty"`
+	N int  `json:"n"`
+}
+
+func (v VRef) term() string {
+	if v.B {
+		return fmt.Sprintf("(VB %d)", v.N)
+	}
+	return fmt.Sprintf("(VM %d)", v.N)
+}
+
+type RefRead struct {
+	Ref  VRef     `json:"ref"`
+	Read ReadSpec `json:"read"`
+}
+type PhaseSpec struct {
+	Ops   []OpSpec  `json:"ops"`
+	Reads []RefRead `json:"reads"`
 }
 type ReadSpec struct {
 	Kind   string   `json:"kind"` // key keys all fields counts keyrange krv keyvalues query meta
@@ -64,6 +93,8 @@ type CaseSpec struct {
 	Ops   []OpSpec   `json:"ops"`
 	Reads []ReadSpec `json:"reads"`
 	Tail  []OpSpec   `json:"tail"` // sent to the child after P5; then the parent is read again (P6)
+	// then: requests (configuration, restart, branch) followed by reads of named versions
+	Phases []PhaseSpec `json:"phases,omitempty"`
 }
 
 var metaNames = []string{"json_schema", "schema", "schema_batch"}
@@ -435,14 +466,78 @@ func queryObjs(q string) []map[string]interface{} {
 
 type runner struct {
 	t        *table
+	target   string // the version the current request goes to
 	uuid     string // head of master
 	parent   string
 	locked   bool
+	root     string
+	masters  []string // master versions from the root
+	branches []string // versions of branch "b"
+	bLocked  bool
 	nreq     int
 	strings  map[string]bool // every string value seen in a stored annotation (regexp oracle domain)
 }
 
-func (r *runner) url(rest string) string { return "/api/node/" + r.uuid + "/nj/" + rest }
+func (r *runner) url(rest string) string { return "/api/node/" + r.target + "/nj/" + rest }
+
+// a negative N counts from the head: -1 the head, -2 its parent
+func (r *runner) norm(v VRef) VRef {
+	if v.N < 0 {
+		if v.B {
+			v.N += len(r.branches)
+		} else {
+			v.N += len(r.masters)
+		}
+	}
+	return v
+}
+
+func (r *runner) uuidOf(v VRef) string {
+	if v.N < 0 {
+		return ""
+	}
+	if v.B {
+		if v.N < len(r.branches) {
+			return r.branches[v.N]
+		}
+		return ""
+	}
+	if v.N < len(r.masters) {
+		return r.masters[v.N]
+	}
+	return ""
+}
+func (r *runner) isOpen(v VRef) bool {
+	if v.B {
+		return v.N == len(r.branches)-1 && !r.bLocked
+	}
+	return v.N == len(r.masters)-1 && !r.locked
+}
+
+// the store's "inmemory" setting (read by neuronjson's Initialize at the next restart)
+func (r *runner) setConfig(op OpSpec) {
+	d, err := datastore.GetDataByUUIDName(dvid.UUID(r.root), "nj")
+	if err != nil {
+		fmt.Fprintln(os.Stderr, err)
+		os.Exit(2)
+	}
+	store, err := storage.GetAssignedStore(d)
+	if err != nil {
+		fmt.Fprintln(os.Stderr, err)
+		os.Exit(2)
+	}
+	vs := []string{}
+	if op.CfgBranch {
+		vs = append(vs, ":b")
+	}
+	for _, ref := range op.CfgStatic {
+		if u := r.uuidOf(ref); u != "" {
+			vs = append(vs, u)
+		}
+	}
+	cfg := store.GetStoreConfig()
+	cfg.Set("inmemory", vs)
+}
 
 func clsOf(resp dv.Resp) string {
 	switch {
@@ -541,6 +636,15 @@ func (r *runner) exec(op OpSpec) string {
 	t := r.t
 	var term, cls, back string
 	back = "[]"
+	r.target = r.uuid
+	if op.Branch {
+		if len(r.branches) == 0 {
+			r.target = "00000000000000000000000000000000" // no such version: the model answers Err
+		} else {
+			r.target = r.branches[len(r.branches)-1]
+		}
+	}
+	defer func() { r.target = r.uuid }()
 	switch op.Kind {
 	case "post":
 		ts := safeNow()
@@ -580,25 +684,59 @@ func (r *runner) exec(op OpSpec) string {
 		cls = clsOf(resp)
 		term = fmt.Sprintf("OpMetaDelete %d", op.Meta)
 	case "commit":
-		resp := dv.Commit(r.uuid)
+		resp := dv.Commit(r.target)
 		cls = clsOf(resp)
 		if resp.Status == 200 {
-			r.locked = true
+			if op.Branch {
+				r.bLocked = true
+			} else {
+				r.locked = true
+			}
 		}
 		term = "OpCommit"
 	case "newversion":
-		child, resp := dv.NewVersion(r.uuid)
+		child, resp := dv.NewVersion(r.target)
 		cls = clsOf(resp)
 		if resp.Status == 200 && child != "" {
-			r.parent, r.uuid, r.locked = r.uuid, child, false
+			if op.Branch {
+				r.branches, r.bLocked = append(r.branches, child), false
+			} else {
+				r.parent, r.uuid, r.locked = r.uuid, child, false
+				r.masters = append(r.masters, child)
+			}
 		}
 		term = "OpNewVersion"
+	case "branch":
+		from := r.uuidOf(VRef{N: op.From})
+		if from == "" {
+			from = "00000000000000000000000000000000"
+		}
+		child, resp := dv.Branch(from, "b")
+		cls = clsOf(resp)
+		if resp.Status == 200 && child != "" {
+			r.branches, r.bLocked = []string{child}, false
+		}
+		term = fmt.Sprintf("OpBranch %d", op.From)
+	case "config":
+		for i := range op.CfgStatic {
+			op.CfgStatic[i] = r.norm(op.CfgStatic[i])
+		}
+		r.setConfig(op)
+		cls = "OOk"
+		refs := []string{}
+		for _, ref := range op.CfgStatic {
+			refs = append(refs, ref.term())
+		}
+		term = fmt.Sprintf("OpSetConfig (mkCfg %s [%s])", lib.CoqBool(op.CfgBranch), strings.Join(refs, ";"))
 	case "reload":
 		datastore.CloseReopenTest()
 		cls = "OOk"
 		term = "OpReload"
 	default:
 		panic("unknown op kind " + op.Kind)
+	}
+	if op.Branch {
+		term = "OpOnBranch (" + term + ")"
 	}
 	return fmt.Sprintf("mkObs (%s) %s %s", term, cls, back)
 }
@@ -789,7 +927,7 @@ func runCase(t *table, cs CaseSpec, run *lib.Run) string {
 		fmt.Fprintln(os.Stderr, err)
 		os.Exit(2)
 	}
-	r := &runner{t: t, uuid: root, strings: map[string]bool{}}
+	r := &runner{t: t, uuid: root, target: root, root: root, masters: []string{root}, strings: map[string]bool{}}
 	hist := []string{}
 	for _, op := range cs.Ops {
 		if op.Kind == "sleep" { // lets the wall clock reach another second: _time stamps become distinguishable
@@ -820,6 +958,7 @@ func runCase(t *table, cs CaseSpec, run *lib.Run) string {
 		os.Exit(2)
 	}
 	parent := r.uuid
+	r.masters = append(r.masters, child)
 	obs(parent, false) // P2
 	obs(child, true)   // P3
 	datastore.CloseReopenTest()
@@ -832,6 +971,30 @@ func runCase(t *table, cs CaseSpec, run *lib.Run) string {
 	}
 	obs(parent, false) // P6
 
+	// phases: requests, then reads of named versions
+	phases := []string{}
+	for _, ph := range cs.Phases {
+		ops := []string{}
+		for _, op := range ph.Ops {
+			ops = append(ops, r.exec(op))
+			run.Count("op:" + op.Kind)
+		}
+		rds := []string{}
+		for _, rr := range ph.Reads {
+			rr.Ref = r.norm(rr.Ref)
+			u := r.uuidOf(rr.Ref)
+			if u == "" {
+				continue
+			}
+			run.Count("refread:" + rr.Read.Kind)
+			rds = append(rds, fmt.Sprintf("((%s, %s), %s)", rr.Ref.term(), r.reqTerm(rr.Read), t.result(rr.Read, r.read(u, r.isOpen(rr.Ref), rr.Read))))
+		}
+		phases = append(phases, fmt.Sprintf("([%s],\n     [%s])", strings.Join(ops, ";\n      "), strings.Join(rds, ";\n      ")))
+	}
+	if len(cs.Phases) > 0 { // leave no configuration behind for the next case
+		r.setConfig(OpSpec{})
+	}
+
 	// regexp oracle
 	strs := []string{}
 	for s := range r.strings {
@@ -839,7 +1002,13 @@ func runCase(t *table, cs CaseSpec, run *lib.Run) string {
 	}
 	sort.Strings(strs)
 	rx := []string{}
-	for _, p := range patterns(cs.Reads) {
+	allReads := append([]ReadSpec{}, cs.Reads...)
+	for _, ph := range cs.Phases {
+		for _, rr := range ph.Reads {
+			allReads = append(allReads, rr.Read)
+		}
+	}
+	for _, p := range patterns(allReads) {
 		re, err := regexp.Compile(p)
 		if err != nil {
 			rx = append(rx, fmt.Sprintf("(%s,None)", t.str(p)))
@@ -879,7 +1048,7 @@ func runCase(t *table, cs CaseSpec, run *lib.Run) string {
 		}
 		reads = append(reads, fmt.Sprintf("(%s (%s, [%s]))", strings.Join(lets, " "), r.reqTerm(rs), strings.Join(refs, ";")))
 	}
-	return fmt.Sprintf("mkCase\n   [%s]\n   [%s]\n   [%s]\n   [%s]", strings.Join(hist, ";\n    "), strings.Join(rx, ";"), strings.Join(reads, ";\n    "), strings.Join(tail, ";\n    "))
+	return fmt.Sprintf("mkCase\n   [%s]\n   [%s]\n   [%s]\n   [%s]\n   [%s]", strings.Join(hist, ";\n    "), strings.Join(rx, ";"), strings.Join(reads, ";\n    "), strings.Join(tail, ";\n    "), strings.Join(phases, ";\n    "))
 }
 
 func main() {
